@@ -315,6 +315,22 @@ def run_pair(ctx, ws, xs):
   ctx.count("make_multiplier_calls")
   if not ok and isinstance(m, ContractFail):
     ctx.count("contract_failures")
+  # ---- the type a multiplier reports must stay what it was when it was returned: qtools builds several
+  # multipliers from one factory (fused batch-norm, merge layers) and reads them later
+  held = _S.setdefault("held", [])
+  for (m0, snap0, base0) in held:
+    now = ty.fields(m0.output)
+    ctx.count("earlier_results_reread")
+    if now != snap0:
+      ctx.violation({"kind": "earlier_multiplier_output_rewritten_by_later_call", "w": base0["w"], "x": base0["x"]},
+                    "multiplier for (%s x %s) reported %r when returned, %r after a later make_multiplier(%s x %s)" % (
+                        base0["wq"], base0["xq"], snap0, now, ws["q"], xs["q"]), {"earlier": base0, "later": base})
+      held.remove((m0, snap0, base0))
+      break
+  if ok and hasattr(m, "output"):
+    held.append((m, ty.fields(m.output), base))
+    if len(held) > 6:
+      held.pop(0)
 
 
 def _observed_values(q, signed_probe=True):
